@@ -354,7 +354,7 @@ func magicRoles(m *model.Model) [4]int {
 			for _, b := range f.Blocks {
 				for _, in := range b.Instrs {
 					if c, ok := in.(*ssa.Call); ok {
-						if cal := c.Call.StaticCallee(); cal != nil && cal.Pkg != nil && cal.Pkg.Pkg.Path() == "math/bits" && strings.HasPrefix(cal.Name(), "Mul") {
+						if cal := model.Unthunk(c.Call.StaticCallee()); cal != nil && cal.Pkg != nil && cal.Pkg.Pkg.Path() == "math/bits" && strings.HasPrefix(cal.Name(), "Mul") {
 							fn = f
 						}
 					}
@@ -390,7 +390,7 @@ func magicRoles(m *model.Model) [4]int {
 	for _, b := range fn.Blocks {
 		for _, in := range b.Instrs {
 			if c, ok := in.(*ssa.Call); ok {
-				if cal := c.Call.StaticCallee(); cal != nil && cal.Pkg != nil && cal.Pkg.Pkg.Path() == "math/bits" && strings.HasPrefix(cal.Name(), "Mul") {
+				if cal := model.Unthunk(c.Call.StaticCallee()); cal != nil && cal.Pkg != nil && cal.Pkg.Pkg.Path() == "math/bits" && strings.HasPrefix(cal.Name(), "Mul") {
 					mul = c
 					for _, a := range c.Call.Args {
 						if i := fieldOf(a); i >= 0 {
